@@ -81,6 +81,14 @@ class LibMixin:
                 self.pre.append('%s* %s = %s(); *%s = %s;' % (t.c, tn, an, tn, val))
                 self.rules['make_shared/make_unique-as-pool-allocation'] += 1
                 return tn
+        if name in ('make_shared', 'make_unique'):
+            rt = self.tyq(n['type'])
+            if rt.kind == 'ptr' and rt.elem is not None and rt.elem.kind == 'opaque' and not [a for a in args if a.get('kind') != 'CXXDefaultArgExpr']:
+                # default-constructed object of an opaque type behind a smart pointer mapped to a plain pointer: a fresh pool object
+                an = 'cc_new_' + cident(rt.elem.c)
+                self.autostubs.setdefault(an, '%s* %s(void);' % (rt.elem.c, an)); self.fninfo.setdefault(an, {'qname': an, 'stub': True})
+                self.rules['make_unique-of-opaque-as-pool-allocation'] += 1
+                return '%s()' % an
         if name in self.u.get('lib_stubs', ['stoi', 'stol', 'to_string', 'get', 'invoke', 'swap', 'holds_alternative']):
             # library function kept as an assumed-contract stub (declared in the unit description)
             atxt = []; ptxt = []; suffix = []
